@@ -50,7 +50,7 @@ func ZZ_C15_Copies(sv *zzsv.T) {
 	}
 	mut := func(name string) *zzStmt { return stIncr(name, op, operand) }
 	var p *zzProg
-	scen := sv.Choice("scenario", 15)
+	scen := sv.Choice("scenario", 19)
 	switch scen {
 	case 0: // assignment copies
 		p = &zzProg{main: []*zzStmt{stSet("x", lit), stSet("y", xVar("x")), mut("y"), stT(xVar("y")), stRet(xVar("x"))}}
@@ -92,6 +92,18 @@ func ZZ_C15_Copies(sv *zzsv.T) {
 		p = &zzProg{funcs: []*zzFunc{
 			{name: "f", params: []string{"v"}, body: []*zzStmt{mut("v"), stRet(xVar("v"))}}},
 			main: []*zzStmt{stSet("x", lit), stEach("", "v", &zzExpr{kind: eArr, args: []*zzExpr{xVar("x"), xVar("x")}}, stSet("r", xCall("f", xVar("v"))), stT(xVar("r")), stT(xVar("v"))), stRet(xVar("x"))}}
+	case 15: // a value computed inside an array literal, mutated through the loop variable
+		el := xBin("+", xVar("x"), xVar("x"))
+		p = &zzProg{main: []*zzStmt{stSet("x", lit), stSet("a", &zzExpr{kind: eArr, args: []*zzExpr{el, xVar("x")}}),
+			stEach("", "v", xVar("a"), mut("v"), stT(xVar("v"))), stEach("", "v", xVar("a"), stT(xVar("v"))), stRet(xVar("x"))}}
+	case 16: // ... mutated through a parameter
+		el := xBin("+", xVar("x"), xVar("x"))
+		p = &zzProg{funcs: []*zzFunc{{name: "f", params: []string{"p"}, body: []*zzStmt{mut("p"), stRet(xVar("p"))}}},
+			main: []*zzStmt{stSet("x", lit), stSet("a", &zzExpr{kind: eArr, args: []*zzExpr{el}}),
+				stEach("", "v", xVar("a"), stSet("r", xCall("f", xVar("v"))), stT(xVar("r"))), stEach("", "v", xVar("a"), stT(xVar("v"))), stRet(xVar("x"))}}
+	case 17: // a computed value passed straight to a function that mutates its parameter, then computed again
+		p = &zzProg{funcs: []*zzFunc{{name: "f", params: []string{"p"}, body: []*zzStmt{mut("p"), stRet(xVar("p"))}}},
+			main: []*zzStmt{stSet("x", lit), stSet("r", xCall("f", xBin("+", xVar("x"), xVar("x")))), stT(xVar("r")), stSet("y", xBin("+", xVar("x"), xVar("x"))), stT(xVar("y")), stRet(xVar("x"))}}
 	default: // object field: y = F; y op; F unchanged
 		sv.Assume(kind == 0)
 		p = &zzProg{main: []*zzStmt{stSet("y", xVar("F")), mut("y"), stT(xVar("y")), stRet(xVar("F"))}}
